@@ -103,6 +103,10 @@ pub struct ChurnCase {
     pub advertised: Vec<u16>,
     /// true: the old peer leaves by a close message; false: it is still there when the new one joins, then closes
     pub close_first: bool,
+    /// the peers are incarnations of ONE node address: each next one is a restart (new node id, other advertised timeout) that
+    /// dials while the node still holds the entry of the previous incarnation; nobody sends a close message
+    #[serde(default)]
+    pub same_address: bool,
 }
 
 /// Membership changes between two announcements: at EVERY announcement the scheduled delay must respect the peers
@@ -137,7 +141,32 @@ pub fn run_churn(c: &ChurnCase) -> CaseResult {
         Ok(())
     };
     for (k, adv) in c.advertised.iter().enumerate() {
-        let mut s = Scripted::new(50 + k as u16, 50 + k as u8, 0, &[0], &[], Some(*adv));
+        let mut s = Scripted::new(if c.same_address { 50 } else { 50 + k as u16 }, 50 + k as u8, 0, &[0], &[], Some(*adv));
+        if c.same_address {
+            // the previous incarnation's handshake must be over (the node lingers 60 s as initiator, not at all as responder)
+            for _ in 0..62 {
+                net.tick();
+                net.queue.clear();
+            }
+            if k > 0 && (net.nodes[0].verif_peers().is_empty() || !net.nodes[0].verif_pending().is_empty()) {
+                // the node's own timeout expired the previous incarnation while waiting (it is re-dialling the address itself):
+                // a restart next to a LIVE entry is what this variant is about
+                return Ok(announcements);
+            }
+            if !s.connect(&mut net, 0) {
+                return Err(Fail::new("harness", "restarted scripted peer could not connect"));
+            }
+            match net.nodes[0].verif_peers().iter().find(|p| p.addr == s.addr) {
+                Some(p) if p.peer_timeout == *adv => {}
+                other => {
+                    return Err(Fail::new("advertised_timeout_not_taken", format!("restart on the same address advertising {}: the node's entry says {:?}", adv, other.map(|p| p.peer_timeout))).with("churn", true).with("same_address", true))
+                }
+            }
+            current = Some(s);
+            check(&mut net, &mut announcements)?;
+            check(&mut net, &mut announcements)?;
+            continue;
+        }
         if c.close_first {
             if let Some(old) = current.as_mut() {
                 old.send(&mut net, 0, crate::messages::MESSAGE_TYPE_CLOSE, &[]);
@@ -199,6 +228,7 @@ pub fn run_mesh(c: &MeshCase) -> CaseResult {
             return Err(Fail::new("no_mesh", format!("timeouts {:?}: no full mesh after the settle phase of {} s", c.timeouts, 2 * longest + 130)));
         }
         let horizon = 3 * *c.timeouts.iter().max().unwrap() as usize + 10;
+        net.capture = Some(vec![]);
         for _ in 0..horizon {
             net.tick();
             net.deliver_all(512);
@@ -206,6 +236,14 @@ pub fn run_mesh(c: &MeshCase) -> CaseResult {
                 let t = net.now - START_TIME;
                 return Err(Fail::new("healthy_peer_dropped", format!("timeouts {:?}: a healthy peer was disconnected at t=+{} (stable membership since the settle phase)", c.timeouts, t)));
             }
+            // a peer that is dropped and re-dialled within one second is "connected" again when we look: but nobody opens a
+            // handshake (ping = stage 1 in byte 12) in a mesh whose members all know each other unless it dropped somebody
+            let cap = net.capture.as_mut().unwrap();
+            if let Some(w) = cap.iter().find(|w| w.data.first() == Some(&0xff) && w.data.len() > 12 && w.data[12] == 1) {
+                let t = net.now - START_TIME;
+                return Err(Fail::new("healthy_peer_dropped", format!("timeouts {:?}: {} re-dialled {} at t=+{} (it had timed the healthy peer out)", c.timeouts, w.from, w.to, t)).with("redialled", true));
+            }
+            cap.clear();
         }
         Ok(1)
     });
@@ -448,10 +486,13 @@ pub fn run(ctx: &Ctx) {
             for a in &advg {
                 for b in &advg {
                     for close_first in [true, false] {
-                        churn.push(ChurnCase { own_timeout, keepalive, advertised: vec![*a, *b], close_first });
+                        churn.push(ChurnCase { own_timeout, keepalive, advertised: vec![*a, *b], close_first, same_address: false });
+                        if close_first {
+                            churn.push(ChurnCase { own_timeout, keepalive, advertised: vec![*a, *b], close_first: false, same_address: true });
+                        }
                         if ctx.tier == Tier::Thorough {
                             for c3 in [60u16, 200, 1800] {
-                                churn.push(ChurnCase { own_timeout, keepalive, advertised: vec![*a, *b, c3], close_first });
+                                churn.push(ChurnCase { own_timeout, keepalive, advertised: vec![*a, *b, c3], close_first, same_address: false });
                             }
                         }
                     }
@@ -460,7 +501,7 @@ pub fn run(ctx: &Ctx) {
         }
     }
     sweep_list(ctx, "membership_churn", &churn, SweepOpts { chunk: 4, trivial_classes: vec![0], ..Default::default() }, run_churn);
-    let grid: Vec<u32> = if ctx.tier == Tier::Quick { vec![3, 60, 120, 300] } else { vec![3, 60, 119, 120, 121, 240, 300, 1800] };
+    let grid: Vec<u32> = if ctx.tier == Tier::Quick { vec![1, 2, 3, 60, 120, 300] } else { vec![1, 2, 3, 60, 119, 120, 121, 240, 300, 1800] };
     let mut meshes = vec![];
     for a in &grid {
         for b in &grid {
